@@ -1,4 +1,5 @@
 import BpProofs.SrcTieJsonMsg
+import BpProofs.SrcTieJsonMsgTyped
 import BpProofs.Props.C05
 /-
   C05 (canonical proto3 JSON mapping), tied to the SOURCE, WHOLE METHOD: `Message.to_dict` as written —
@@ -28,7 +29,14 @@ theorem src_to_json_is_canonical (S : Schema) (E : Enums) (m : Val) (k : Nat) (i
   obtain ⟨hW, hD, hK⟩ := guards_of_jsonOk S E .camel (jsonOk_of_jsonOk5 S E hS)
   rw [value_to_json_eq S E .camel false hW hD hK k m indent hv, canonical_message S E m hS hwt hz]
 
+/-- the same with the value guard discharged by the typing judgement (`kOkAt k m`: pairwise distinct dict keys at
+    every level, Message instances nested at most `k` deep) -/
+theorem src_to_dict_is_canonical_typed (S : Schema) (E : Enums) (m : Val) (k : Nat) (hS : jsonOk5 S E = true)
+    (hwt : wellTyped' S m = true) (hz : noNegZero S m = true) (hk : kOkAt k m = true) :
+    Src.value_to_dict S E (k + 1) .camel false m = .ok (specJson S E m) :=
+  src_to_dict_is_canonical S E m k hS hwt hz (vOkAt_of_typed S k m hwt hk)
+
 /-! non-vacuity: the guards hold of C05's own nested instance `m5` -/
-example : jsonOk5 S5 E5 = true ∧ vOkAt S5 4 m5 = true := by decide
+example : jsonOk5 S5 E5 = true ∧ vOkAt S5 4 m5 = true ∧ kOkAt 4 m5 = true := by decide
 
 end Bp.C05
